@@ -124,7 +124,7 @@ func (m *mstate) apply(w world, ev string) {
 		if p[1] == "oob" || i < 0 || i >= len(m.st) {
 			return
 		}
-		if kind == "bad" {
+		if strings.HasPrefix(kind, "bad") {
 			m.badEver = true
 		}
 		if m.deal == "" || !w.SameSession(m.deal) {
